@@ -10,7 +10,7 @@ import struct
 
 __all__ = ["forall", "exists", "implies", "ite", "seq_eq_at", "unchanged", "is_nan", "is_finite", "f32_round",
            "float_eq", "f32_bytes", "f64_bytes", "ghost", "fresh_int", "f32_of_bytes", "f64_of_bytes", "prefix_sum", "fresh_bool",
-           "region_of", "region_size", "key_of", "reach", "reach_transitive", "reach_closed", "reach_depth"]
+           "region_of", "region_size", "key_of", "reach", "reach_transitive", "reach_closed", "reach_depth", "field_seq"]
 
 
 def forall(lo, hi, fn):
@@ -138,3 +138,8 @@ def reach_closed(region, field):
 
 def reach_depth(region, field, depth_field):
     return True
+
+
+def field_seq(region, field):
+    """The values of one scalar field of all objects of a region, in key order, as a sequence (for prefix sums etc.)."""
+    return [getattr(o, field) for o in region]
